@@ -535,6 +535,14 @@ func writeEvidence(rd *runData, prop, tier string, seed int, sel, discharged, kn
 	} else {
 		assumptions = append(assumptions, "signed machine integers are checked for overflow (arith.no_overflow) in every function under contract used by this check")
 	}
+	if len(rd.eng.inferred) > 0 {
+		var ks []string
+		for k, c := range rd.eng.inferred {
+			ks = append(ks, k+"="+c)
+		}
+		sort.Strings(ks)
+		assumptions = append(assumptions, "fields of shared structs without a declaration in the contract file get the class their accesses show (immutable if only a constructor stores them, else guarded by the struct's mutex): "+strings.Join(ks, ", "))
+	}
 	if len(counters) > 0 {
 		assumptions = append(assumptions, "fields declared `counter` change by steps of one only (obligation counter.unit_step at every store) and are treated as mathematical, 2^63 steps away from wrapping: "+strings.Join(counters, ", "))
 	}
